@@ -67,6 +67,19 @@ def run(rep, tier):
         nb = kspipe.report(rep, events, bad, {"scr", "fill"}, name + "x")
         rep.extra.setdefault("corpora", []).append({"corpus": name + " (exact scratch)", "descriptors": n, "events": len(events), "scratch_calls": calls})
         log("[C12] corpus %s exact: %d behaviours (%d library calls in exact-size windows), %d rejected" % (name, len(events), calls, nb))
+    # 2c. matrix-level operations (GGSW key-switch / automorphism / from GGLWE, GGLWE external product, automorphism of
+    #     automorphism keys, GGSW rotation) and their key generation / preparation in exact-size windows
+    for name, cfg, per in (("c03g", "Core/Gen_Ggsw_c03", 8 if quick else 100), ("c04g", "Core/Gen_Ggsw_c04", 10 if quick else 120)):
+        path, n_all, n = kspipe.gen_descs(rep, wd, "Core/Gen_Ggsw", cfg + ("_quick" if quick else "_thorough"), name + "x", per_op=per, exact=True)
+        events, bad = kspipe.run_and_validate(rep, wd, path, name + "x", shards=12, sub="ggsw", trace_module="Core/GgswTrace")
+        calls = sum(len(r_["calls"]) for e in events for r_ in e["scr"])
+        total += calls
+        rep.evaluations += calls
+        rep.distinct += len(events)
+        bad += [(i, "scr") for i, e in enumerate(events) if any(o["panic"] for o in e["outs"]) and (i, "scr") not in bad]
+        nb = kspipe.report(rep, events, bad, {"scr", "fill"}, name + "x")
+        rep.extra.setdefault("corpora", []).append({"corpus": name + " (exact scratch)", "descriptors": n, "events": len(events), "scratch_calls": calls})
+        log("[C12] corpus %s exact: %d behaviours (%d library calls in exact-size windows), %d rejected" % (name, len(events), calls, nb))
     # 3. monotonicity of the shape-parameterised size queries
     tb = os.path.join(wd, "tmpbytes.ndjson")
     rowsall = []
